@@ -300,4 +300,62 @@ func TestVerif_C08(t *testing.T) {
 	k.Regress(t, func(sub string, raw json.RawMessage) error { return verifkit.Decode(raw, prop) })
 	verifkit.Enumerate(k, t, "stop-situation-matrix", true, c08Matrix, prop)
 	verifkit.Rapid(k, t, "stop-instant-x-backlog", k.N(3000, 600000), c08Gen, prop)
+	verifkit.Enumerate(k, t, "fatal-error-surfacing-after-the-stop", true, c08FatalMatrix, c08FatalProp(t, k))
+}
+
+// c08FatalMatrix: the advertiser is asked to stop while it is busy with something that then fails for a
+// reason no re-initialisation would cure - the forwarding state, slow to read, turns out to be unreadable
+// while another router's RA (or a solicitation's answer) is being worked on. The stop came first: the run
+// still ends in success. (No final RA can be demanded: building it needs the same unreadable state.)
+func c08FatalMatrix(yield func(advScenario) bool) {
+	s, ms := int64(time.Second), int64(time.Millisecond)
+	for _, term := range []bool{true, false} {
+		for _, kind := range []string{"other", "perm"} {
+			for _, delay := range []int64{300 * ms, 900 * ms} {
+				for _, lead := range []int64{100 * ms, delay - 1} { // how long before the stop the work began
+					for _, what := range []string{"ra", "rs"} {
+						sc := advScenario{Cfg: c06BaseCfg(30), Fwd0: true, Terminate: term, StateDelayNS: delay, StopNS: 8 * s}
+						ev := advEvent{AtNS: 8*s - lead, Kind: "msg", Msg: what, From: "fe80::b"}
+						if what == "ra" {
+							ev.RA = &sc.Cfg.RA
+						} else {
+							ev.AtNS -= 500 * ms // (the answer is built when its random delay of at most 500 ms is over)
+						}
+						sc.Events = []advEvent{{AtNS: 8*s - lead - 700*ms, Kind: "statefail", Err: kind}, ev}
+						if !yield(sc) {
+							return
+						}
+					}
+				}
+			}
+		}
+	}
+}
+
+func c08FatalProp(t *testing.T, k *verifkit.Kit) func(sc advScenario) error {
+	return func(sc advScenario) error {
+		sc.TailNS = int64(10 * time.Minute)
+		sc.WaitNS = int64(30*time.Second) + 50*sc.StateDelayNS
+		r := runAdvertiser(t, sc, nil)
+		if r.W == nil {
+			return fmt.Errorf("verif: world not created: %v", r.Panic)
+		}
+		if r.Panic != nil {
+			return verifkit.Violf("panic", "panic in bubble: %v\n%s", r.Panic, r.W.timeline())
+		}
+		if !r.Returned {
+			return verifkit.Violf("C08/run-does-not-return", "Run has not returned %v after the stop at %v\n%s", time.Duration(sc.WaitNS), r.StopAt, r.W.timeline())
+		}
+		after := r.RetAt > r.StopAt // (a run that ended before, or at the very instant of, the stop was not stopped: not judged)
+		k.Record(sc, after, fmt.Sprintf("terminate=%v", sc.Terminate), fmt.Sprintf("returned-after-stop=%v", after))
+		if after && r.RetErr != nil {
+			return verifkit.Violf("C08/run-returns-error", "Run returned %v at %v, after the stop request at %v\n%s", r.RetErr, r.RetAt, r.StopAt, r.W.timeline())
+		}
+		for _, w := range r.Writes {
+			if w.Start > r.RetAt || w.End > r.RetAt || w.End < 0 {
+				return verifkit.Violf("C08/transmission-after-return", "write to %v started %v / completed %v, Run returned at %v\n%s", w.Dst, w.Start, w.End, r.RetAt, r.W.timeline())
+			}
+		}
+		return nil
+	}
 }
